@@ -27,9 +27,10 @@ pub proof fn lemma_sr_sub_of_low(u: nat, bb: nat, l: nat, s: nat)
         requires u as int == pb * (q as int) + r as int, pb == pl * (ps * pd), k == ps * pd * (q as int);
     vstd::arithmetic::div_mod::lemma_fundamental_div_mod(r as int, pl);
     let rq = (r as int) / pl; let rr = (r as int) % pl;
-    assert(u as int == pl * (k + rq) + rr) by (nonlinear_arith)
+    assert(u as int == (k + rq) * pl + rr) by (nonlinear_arith)
         requires u as int == pl * k + r as int, r as int == pl * rq + rr;
     vstd::arithmetic::div_mod::lemma_mod_bound(r as int, pl);
+    assert(0 <= rr < pl && pl != 0);
     vstd::arithmetic::div_mod::lemma_fundamental_div_mod_converse(u as int, pl, k + rq, rr);
     assert((u as int) / pl == k + rq);
     // (k + rq) % ps == rq % ps  since k is a multiple of ps
@@ -691,8 +692,9 @@ pub proof fn lemma_sr_insert_arith(u: nat, w: nat, l: nat, s: nat, xu: nat)
     // reading the field back
     let i = sr_insert_u(u, l, s, xu);
     let q = (hi as int) * ps + (xs as int);
-    assert(i as int == pl * q + (lo as int)) by (nonlinear_arith)
+    assert(i as int == q * pl + (lo as int)) by (nonlinear_arith)
         requires i as int == (hi as int) * pls + (xs as int) * pl + (lo as int), pls == ps * pl, q == (hi as int) * ps + (xs as int);
+    assert(0 <= (lo as int) < pl && pl != 0);
     vstd::arithmetic::div_mod::lemma_fundamental_div_mod_converse(i as int, pl, q, lo as int);
     assert((i as int) / pl == q);
     assert(q == ps * (hi as int) + (xs as int)) by (nonlinear_arith) requires q == (hi as int) * ps + (xs as int);
@@ -903,7 +905,6 @@ pub proof fn lemma_sr_sim_merge(t: SrTable, tmp: String, var: Variable, next: De
              forall |n: String| n != tmp ==> #[trigger] pe(n) == ae(n),
              sr_eval(t, pe, false, xe) == x, x.wf(), x.w@ == 8 * var.size.0,
              sr_merge_ok(t, var, next),
-             next->Assign_var.size.0 == (*t[&next->Assign_var.name]).size.0,
     ensures ({
         let cv = next->Assign_var;
         let m = sr_def_subst(next, var, xe);
@@ -984,7 +985,6 @@ pub open spec fn sr_alias_after(t: SrTable, d: Def, merge: bool, next: Def, a: S
 
 pub open spec fn sr_merge_pre(t: SrTable, d: Def, merge: bool, next: Def) -> bool {
     merge ==> sr_writes_sub(t, d) && sr_merge_ok(t, sr_def_out(d)->Some_0, next)
-              && next->Assign_var.size.0 == (*t[&next->Assign_var.name]).size.0
 }
 
 /// THE SIMULATION STEP: the reference output for `d` executed plainly == `d` (and the merged cast) executed with aliasing
@@ -1158,10 +1158,7 @@ pub proof fn lemma_sr_inv_step_state(t: SrTable, tmp: String, defs: Seq<Term<Def
     let new = sr_out_terms(t, tmp, d1, merge, next);
     let n0 = out0.len() as int;
     assert(sr_writes_sub(t, d1) == sr_writes_sub(t, d0));
-    if merge {
-        assert(pos < defs.len());
-        assert(sr_no_narrow_cast(t, defs[pos - 1].term, defs[pos - 1 + 1].term));
-    }
+    if merge { assert(pos < defs.len()); }
     assert(sr_merge_pre(t, d1, merge, next));
     let p = sr_run(t, false, out0, 0, n0, s);
     let a = sr_run(t, true, defs, 0, pos - 1, s);
@@ -1215,7 +1212,6 @@ pub proof fn lemma_sr_inv_step(t: SrTable, tmp: String, defs: Seq<Term<Def>>, po
     assert forall |i: int| 0 <= i < out1.len() implies sr_def_plain(t, (#[trigger] out1[i]).term) by {
         if i < n0 { assert(out1[i] == out0[i]); } else {
             lemma_sr_def_mid(t, tmp, d0, d1);
-            if merge { assert(sr_no_narrow_cast(t, defs[pos - 1].term, defs[pos - 1 + 1].term)); }
             lemma_sr_out_sim_plain(t, tmp, d1, merge, next);
             assert(out1[n0 + (i - n0)].term == new[i - n0]);
         }
